@@ -300,9 +300,6 @@ def prop_contract(case, r):
             fu = P.eval_f(u, t)
             res = arr(u) - factor * impl_part(fu, comp) - arr(rhs)
             terms = max(float(np.abs(arr(u)).max()), float(np.abs(factor * impl_part(fu, comp)).max()), float(np.abs(arr(rhs)).max()), 1e-300)
-            if factor == 0.0:
-                r.close(float(np.abs(arr(u) - arr(rhs)).max()), 1e-13 * max(terms, 1.0), 'factor-zero', f'{name}: solve with factor 0 must return rhs')
-                continue
             if reg['kind'] == 'linear' and not reg.get('iterkey') and not reg.get('cgkey') or (reg.get('iterkey') and P.params.get('solver_type', 'direct') == 'direct'):
                 tol = 1e-9 * terms
             elif reg.get('iterkey') or reg.get('cgkey'):
@@ -316,6 +313,11 @@ def prop_contract(case, r):
                 lt = P.params.get('lin_tol', P.params.get('lintol')) if hasattr(P, 'params') else None
                 if lt and not P.params.get('direct_solver', False):
                     tol += 100 * float(lt) * max(1.0, float(np.abs(arr(rhs)).max()))
+            if factor == 0.0:
+                # u - 0*f - rhs = 0: direct solvers return rhs to rounding, iterative ones (CG / GMRES / Newton from a perturbed guess) to their tolerance
+                direct = reg['kind'] == 'linear' and not reg.get('iterkey') and not reg.get('cgkey') or (reg.get('iterkey') and P.params.get('solver_type', 'direct') == 'direct')
+                r.close(float(np.abs(arr(u) - arr(rhs)).max()), 1e-13 * max(terms, 1.0) if direct else max(tol, 1e-13 * max(terms, 1.0)), 'factor-zero', f'{name}: solve with factor 0 must return rhs')
+                continue
             # where the residual sits (used to delimit the known findings F11 / F17 narrowly, from the residual itself)
             rv = np.asarray(res, dtype=float).ravel() if not np.iscomplexobj(res) else np.abs(np.asarray(res)).ravel()
             where = ''
